@@ -17,6 +17,8 @@ import (
 	"fmt"
 	"io"
 	"math/rand/v2"
+	"net/http"
+	"net/http/httptest"
 	"os"
 	"regexp"
 	"strconv"
@@ -38,6 +40,7 @@ type c02Case struct {
 	Params  string   `json:"params"`
 	Members []string `json:"members"`
 	Order   []int    `json:"order"`
+	JSON    bool     `json:"json"` // streamable HTTP: JSONResponse mode
 }
 
 type c02Obs struct {
@@ -55,6 +58,11 @@ type c02Obs struct {
 	Singles   int        `json:"singles"` // responses written outside any array
 	Premature bool       `json:"premature"`
 	Panic     string     `json:"panic"`
+	// streamable HTTP
+	Status    int  `json:"status"`    // HTTP status of the POST carrying the case
+	Answered  int  `json:"answered"`  // batch: members with an id that got exactly one response with that id
+	ReuseOK   bool `json:"reuseOk"`   // batch: a later single call re-using the first member's id was answered
+	ReuseStat int  `json:"reuseStatus"`
 }
 
 type c02Flush struct {
@@ -374,6 +382,157 @@ func c02Batch(t *testing.T, r *rand.Rand, c c02Case) (o c02Obs) {
 	return o
 }
 
+// ---------------------------------------------------------------- streamable HTTP (stateful), in process
+
+func c02Post(h http.Handler, sid, ver, body string) *httptest.ResponseRecorder {
+	req := httptest.NewRequest("POST", "http://127.0.0.1/mcp", strings.NewReader(body))
+	req.Header.Set("Content-Type", "application/json")
+	req.Header.Set("Accept", "application/json, text/event-stream")
+	if sid != "" {
+		req.Header.Set("Mcp-Session-Id", sid)
+	}
+	if ver != "" && ver >= "2025-06-18" {
+		req.Header.Set("Mcp-Protocol-Version", ver)
+	}
+	rec := httptest.NewRecorder()
+	h.ServeHTTP(rec, req)
+	return rec
+}
+
+// c02Responses extracts the JSON-RPC messages of an HTTP response (JSON body, JSON array, or SSE data lines).
+func c02Responses(rec *httptest.ResponseRecorder) []string {
+	var out []string
+	add := func(raw string) {
+		raw = strings.TrimSpace(raw)
+		if strings.HasPrefix(raw, "[") {
+			var arr []json.RawMessage
+			if json.Unmarshal([]byte(raw), &arr) == nil {
+				for _, a := range arr {
+					out = append(out, string(a))
+				}
+				return
+			}
+		}
+		if raw != "" {
+			out = append(out, raw)
+		}
+	}
+	if strings.HasPrefix(rec.Header().Get("Content-Type"), "text/event-stream") {
+		for _, ln := range strings.Split(rec.Body.String(), "\n") {
+			if d, ok := strings.CutPrefix(ln, "data:"); ok {
+				add(d)
+			}
+		}
+	} else if strings.HasPrefix(rec.Header().Get("Content-Type"), "application/json") {
+		add(rec.Body.String())
+	}
+	return out
+}
+
+func c02HTTP(t *testing.T, r *rand.Rand, c c02Case) (o c02Obs) {
+	o.Case = c
+	defer func() {
+		if p := recover(); p != nil {
+			o.Panic = fmt.Sprint(p)
+		}
+	}()
+	srv := mcp.NewServer(&mcp.Implementation{Name: "s", Version: "1"}, nil)
+	srv.AddTool(&mcp.Tool{Name: "echo", InputSchema: json.RawMessage(`{"type":"object"}`)},
+		func(ctx context.Context, req *mcp.CallToolRequest) (*mcp.CallToolResult, error) {
+			return &mcp.CallToolResult{Content: []mcp.Content{&mcp.TextContent{Text: "ok"}}}, nil
+		})
+	h := mcp.NewStreamableHTTPHandler(func(*http.Request) *mcp.Server { return srv }, &mcp.StreamableHTTPOptions{JSONResponse: c.JSON})
+	rec := c02Post(h, "", "", `{"jsonrpc":"2.0","id":"init","method":"initialize","params":{"protocolVersion":"`+c.Era+`","capabilities":{},"clientInfo":{"name":"p","version":"1"}}}`)
+	sid := rec.Header().Get("Mcp-Session-Id")
+	if rec.Code != 200 || sid == "" {
+		o.Panic = fmt.Sprintf("setup: initialize status %d", rec.Code)
+		return o
+	}
+	c02Post(h, sid, c.Era, `{"jsonrpc":"2.0","method":"notifications/initialized","params":{}}`)
+	count := func(msgs []string, tok string) (n, other, code int) {
+		for _, m := range msgs {
+			mm := c02IDRe.FindStringSubmatch(m)
+			if mm != nil && mm[1] == tok {
+				n++
+				if cm := c02CodeRe.FindStringSubmatch(m); cm != nil && n == 1 {
+					code, _ = strconv.Atoi(cm[1])
+				}
+			} else {
+				other++
+			}
+		}
+		return
+	}
+	if c.T == "httpshape" {
+		method := c.Method
+		switch c.Method {
+		case "unknown":
+			method = []string{"foo/bar", "tools/lst"}[r.IntN(2)]
+		case "notifonly":
+			method = "notifications/progress"
+		}
+		idPart := ""
+		if c.HasID {
+			o.IDTok = c02IDToken(r, c.Idc)
+			idPart = `"id":` + o.IDTok + `,`
+		}
+		o.Sent = `{"jsonrpc":"2.0",` + idPart + `"method":"` + method + `"` + c02Params(method, c.Params) + `}`
+		rec := c02Post(h, sid, c.Era, o.Sent)
+		o.Status = rec.Code
+		msgs := c02Responses(rec)
+		o.Lines = len(msgs)
+		if c.HasID {
+			o.Count, o.OtherResp, o.Code = count(msgs, o.IDTok)
+		} else {
+			o.OtherResp = len(msgs)
+		}
+	} else { // httpbatch
+		var parts, ids []string
+		for i, m := range c.Members {
+			id := strconv.Itoa(100 + i)
+			switch m {
+			case "call":
+				ids = append(ids, id)
+				parts = append(parts, `{"jsonrpc":"2.0","id":`+id+`,"method":"tools/call","params":{"name":"echo","arguments":{}}}`)
+			case "unk":
+				ids = append(ids, id)
+				parts = append(parts, `{"jsonrpc":"2.0","id":`+id+`,"method":"no/such"}`)
+			case "notif":
+				parts = append(parts, `{"jsonrpc":"2.0","method":"notifications/progress","params":{"progressToken":"t","progress":1}}`)
+			}
+		}
+		o.Sent = "[" + strings.Join(parts, ",") + "]"
+		rec := c02Post(h, sid, c.Era, o.Sent)
+		o.Status = rec.Code
+		msgs := c02Responses(rec)
+		o.Lines = len(msgs)
+		o.Count = len(ids)
+		for _, id := range ids {
+			if n, _, _ := count(msgs, id); n == 1 {
+				o.Answered++
+			}
+		}
+		o.ReuseOK = true
+		if len(ids) > 0 {
+			// every id of the completed batch may be used again
+			for _, id := range ids {
+				rec2 := c02Post(h, sid, c.Era, `{"jsonrpc":"2.0","id":`+id+`,"method":"ping"}`)
+				o.ReuseStat = rec2.Code
+				n, _, code := count(c02Responses(rec2), id)
+				if rec2.Code != 200 || n != 1 || code != 0 {
+					o.ReuseOK = false
+					break
+				}
+			}
+		}
+	}
+	// the session survives
+	rec3 := c02Post(h, sid, c.Era, `{"jsonrpc":"2.0","id":"alive-probe","method":"ping"}`)
+	n, _, code := count(c02Responses(rec3), `"alive-probe"`)
+	o.Alive = rec3.Code == 200 && n == 1 && code == 0
+	return o
+}
+
 func TestVerif_C02Wire(t *testing.T) {
 	in, outp := os.Getenv("VERIF_IN"), os.Getenv("VERIF_OUT")
 	if in == "" || outp == "" {
@@ -402,9 +561,12 @@ func TestVerif_C02Wire(t *testing.T) {
 			t.Fatalf("bad case: %v", err)
 		}
 		var o c02Obs
-		if c.T == "batch" {
+		switch c.T {
+		case "batch":
 			o = c02Batch(t, r, c)
-		} else {
+		case "httpshape", "httpbatch":
+			o = c02HTTP(t, r, c)
+		default:
 			o = c02Shape(t, r, c)
 		}
 		if o.Flushes == nil {
